@@ -22,7 +22,7 @@ import (
 	"verif/engine/val"
 )
 
-var recShapes = []string{"self", "mutual", "closure", "method", "counter"}
+var recShapes = []string{"self", "mutual", "closure", "method", "counter", "mutual-counter", "mutual3-counter"}
 var recForms = []string{"pre", "post"} // 1 + f(n-1)  |  f(n-1) + 1
 
 func recSource(c Case) string {
@@ -63,6 +63,31 @@ func recSource(c Case) string {
 		}
 		return fmt.Sprintf("g := %d\nf := func() { %s }\nout := f()\n", c.Depth,
 			strings.Join(append(ls, "if g == 0 { return 0 }", "g--", call), "; "))
+	case "mutual-counter", "mutual3-counter":
+		// distinct function objects calling each other with one slot per frame: the frame limit is what runs out
+		names := []string{"f", "h"}
+		if c.Shape == "mutual3-counter" {
+			names = append(names, "k")
+		}
+		var sb strings.Builder
+		fmt.Fprintf(&sb, "g := %d\n", c.Depth)
+		for _, n := range names[1:] {
+			fmt.Fprintf(&sb, "%s := undefined\n", n)
+		}
+		for i, n := range names {
+			next := names[(i+1)%len(names)]
+			call := "return 1 + " + next + "()"
+			if c.Form == "post" {
+				call = "return " + next + "() + 1"
+			}
+			def := " = "
+			if i == 0 {
+				def = " := "
+			}
+			fmt.Fprintf(&sb, "%s%sfunc() { %s }\n", n, def, strings.Join(append(append([]string{}, ls...), "if g == 0 { return 0 }", "g--", call), "; "))
+		}
+		sb.WriteString("out := f()\n")
+		return sb.String()
 	}
 	return ""
 }
